@@ -20,11 +20,11 @@ Q = 'xtuml.consistency_check:'
 
 
 def run(ctx):
-    predicate(ctx)
-    summing(ctx)
-    consistent(ctx)
-    uniq(ctx)
-    subtype(ctx)
+    ctx.guard(predicate, ctx)
+    ctx.guard(summing, ctx)
+    ctx.guard(consistent, ctx)
+    ctx.guard(uniq, ctx)
+    ctx.guard(subtype, ctx)
     ctx.assume('Link.navigate returns the partner set of the instance (C02-LINKOPS)')
     return ('Finite truth tables obtained by abstract execution of the source of check_link_integrity, '
             'check_association_integrity, check_subtype_integrity, MetaModel.is_consistent, the null predicate of '
@@ -228,6 +228,7 @@ def _main_rule(ctx, r, modname):
     effects = [('%s = 0' % var, init), ('%s += _V' % var, add)]
     iters = [('opts.rel_ids', lambda e, s, tr: list(s['rels'])), ('opts.kinds', lambda e, s, tr: list(s['kinds']))]
     it = absint.Interp(fn, atoms, effects, iters=iters)
+    it.skip = lambda st: isinstance(st, ast.Expr)
     for rels, kinds in itertools.product([[], ['r1', 'r2']], [[], ['k1', 'k2']]):
         state = {'rels': rels, 'kinds': kinds}
         out, tr = it.run(state, body=suffix)
